@@ -183,6 +183,12 @@ class SInt:
     def _bin(self, o, f, swap=False):
         if isinstance(o, (SNum, float)):
             return NotImplemented
+        from fractions import Fraction
+        if isinstance(o, Fraction):
+            a, b = SNum(z3.ToReal(self.t), "frac"), o
+            if swap:
+                return f(SNum(zreal(o), "frac"), a) if False else _frac_op(f, SNum(zreal(o), "frac"), a)
+            return _frac_op(f, a, SNum(zreal(o), "frac"))
         try:
             a, b = self.t, zint(o)
         except Inapplicable:
@@ -279,6 +285,9 @@ class SInt:
     def _cmp(self, o, f):
         if isinstance(o, (SNum, float)):
             return f(SNum.of(self), o)
+        from fractions import Fraction
+        if isinstance(o, Fraction):
+            return mkbool(f(z3.ToReal(self.t), zreal(o)))
         try:
             return mkbool(f(self.t, zint(o)))
         except Inapplicable:
@@ -320,6 +329,11 @@ class SInt:
 
     def __repr__(self):
         return f"SInt({self.t})"
+
+
+def _frac_op(f, a, b):
+    """apply the z3-level binary operator f to two exact rationals"""
+    return SNum(_simp(f(a.t, b.t)), "frac")
 
 
 def sdivmod(a, b):
@@ -732,6 +746,21 @@ class SStr:
         lo, hi = self.len_bounds()
         return lo if lo == hi else None
 
+    def sym_len(self):
+        """length as an int / SInt when every variable-length atom carries a symbolic length"""
+        n = self.fixed_len()
+        if n is not None:
+            return n
+        total = z3.IntVal(0)
+        for a in self.atoms:
+            if a.lo() == a.hi():
+                total = total + a.lo()
+            elif isinstance(a, Opaque) and a.length is not None:
+                total = total + a.length
+            else:
+                return None
+        return mkint(total)
+
     def __bool__(self):
         lo, hi = self.len_bounds()
         if lo > 0:
@@ -1143,10 +1172,11 @@ class SEnum:
 class Opaque:
     """An opaque piece of text produced by a function under contract (e.g. str(size)); `tag`
     identifies the producer, `payload` the abstract arguments; `alphabet` what it may contain."""
-    __slots__ = ("tag", "payload", "alphabet", "_lo")
+    __slots__ = ("tag", "payload", "alphabet", "_lo", "length")
 
-    def __init__(self, tag, payload, alphabet, lo=1):
+    def __init__(self, tag, payload, alphabet, lo=1, length=None):
         self.tag, self.payload, self.alphabet, self._lo = tag, payload, frozenset(alphabet), lo
+        self.length = length          # optional z3 Int: the (symbolic) number of characters
 
     def lo(self):
         return self._lo
